@@ -566,6 +566,10 @@ pub fn job(id: i64, r: Res) -> impl FnOnce() -> Res + Send + 'static {
 pub fn job(id: i64, r: Res) -> impl FnOnce() -> Res + 'static {
     move || t(id, r)
 }
+/// operand of `->` behind a closure-valued branch: runs the closure
+pub fn force<R>(f: impl FnOnce() -> R) -> R {
+    f()
+}
 /// `??` on Result
 pub fn i(id: i64, r: &Res) {
     let _q = Quiet::new();
